@@ -184,6 +184,20 @@ class Exec:
             st[k] += 1
             fl = self.flow(w)
             ps = w.master.addons.get("proxyserver")
+            # the injection must be recorded and relayed if the relay is up and cannot end before the layer gets to it:
+            # upstream connected, no end/error hook yet; TCP: the spoofed sender has not closed (guaranteed by enabled());
+            # UDP: nobody has closed (any close ends a UDP flow).  The *target* may well have half-closed its own
+            # sending side - it still reads.
+            ended = any(n.endswith(("_end", "_error")) and n.startswith(("tcp_", "udp_")) for n, _ in w.hooks)
+            owed = self.server(w) is not None and not ended and not w.done
+            # while the layer waits for a held hook the injection is queued, and closes that arrive later can end the
+            # flow before the layer gets to it (all_done looks at the connection states, not at the queue): not owed
+            if w.suspended or w.pending_connects():
+                owed = False
+            if self.proto == "udp" and (st["c_eof"] or st["s_eof"]):
+                owed = False
+            st["injected"].append({"tag": d, "from_client": from_client, "owed": owed,
+                                   "target_half_closed": st["s_eof"] if from_client else st["c_eof"]})
             # the real command; to_client = not from_client
             if self.proto == "tcp":
                 w.do(ps.inject_tcp, fl, not from_client, d)
@@ -201,7 +215,7 @@ class Exec:
         w = W29(mode=mode, opts=opts, transport=self.proto, policy=make_policy(self.pol), suspend=make_suspend(self.hold))
         ps = w.master.addons.get("proxyserver")
         st = {"c_data": 0, "s_data": 0, "c_eof": False, "s_eof": False, "inj_c": 0, "inj_s": 0, "sent_c": [], "sent_s": [],
-              "connect_failed": False, "half": None, "gone_at": None, "gone_pending": False}
+              "connect_failed": False, "half": None, "gone_at": None, "gone_pending": False, "injected": []}
         choices, widths, costs, trace = [], [], [], []
         case = {"spec": self.spec(), "choices": None}
         reg = None
@@ -333,6 +347,15 @@ class Exec:
         else:
             t.judge("peer_gets_recorded_contents_in_order", not got_s and not got_c, feats, case, "nothing relayed without a flow",
                     {"to_server": got_s, "to_client": got_c, "trace": trace})
+        # --- "including ... injected messages": an injection into a running relay is a message of the flow
+        if fl is not None and not st["gone_pending"]:
+            for inj in st["injected"]:
+                if not inj["owed"]:
+                    continue
+                n = sum(1 for m in fl.messages if m.from_client == inj["from_client"] and inj["tag"] in m.content)
+                t.judge("injected_message_recorded_once", n == 1, dict(feats, target_half_closed=inj["target_half_closed"]), case,
+                        "exactly one recorded message carrying %r" % inj["tag"],
+                        {"recorded": [[m.from_client, m.content] for m in fl.messages], "trace": trace})
         # --- exactly one end or error per flow
         if started:
             t.judge("exactly_one_end_or_error", started == 1 and ends + errs == 1, feats, case, "one of %s_end / %s_error" % (pre, pre),
